@@ -196,8 +196,14 @@ def replayable(case):
 # normal forms of outputs
 # --------------------------------------------------------------------------
 
+EXACT = [False]     # set by compare_case(exact=True): the model computes in binary64 (Host/DCMotorFloat.v), no tolerance
+
+
 def m_q(w):
-    # the model's exact rational, rounded once to binary64 (error 1e-16, tolerance is 1e-9; 0 stays 0)
+    # the model's exact rational, rounded once to binary64 (error 1e-16, tolerance is 1e-9; 0 stays 0);
+    # in exact mode the rational itself (a Fraction compares exactly with a Python float)
+    if EXACT[0]:
+        return ("f", Fr(w[0], w[1]))
     return ("f", w[0] / w[1])
 
 
@@ -250,7 +256,7 @@ def same(a, b) -> bool:
     if a[0] != b[0]:
         return False
     if a[0] == "f":
-        return close(a[1], b[1])
+        return a[1] == b[1] if EXACT[0] else close(a[1], b[1])
     if a[0] == "t":
         return len(a[1]) == len(b[1]) and all(same(x, y) for x, y in zip(a[1], b[1]))
     return a == b
@@ -307,7 +313,7 @@ def zero_noise(model_applied, impl_applied, model_mode, impl_mode) -> bool:
     applied speed is exactly 0 (mode coast) while on the other side the computation left a non-zero residue below
     1e-9 (mode drive), e.g. 0.1 + (-0.1/20)*20 in floats, or a ramp step that is exactly 0.0 in floats and 1e-17 over
     the rationals.  The property allows it ('to float rounding')."""
-    if model_applied[0] != "f" or impl_applied[0] != "f":
+    if EXACT[0] or model_applied[0] != "f" or impl_applied[0] != "f":
         return False
     a, b = model_applied[1], impl_applied[1]
     return ((model_mode == ("s", "coast") and impl_mode == ("s", "drive") and a == 0 and 0 < abs(b) <= TOL)
@@ -337,13 +343,23 @@ class Stats:
         d[k] = d.get(k, 0) + n
 
 
-def compare_case(ctx, st: Stats, case, m, r):
-    """model output m (wire) vs implementation output r (JSON) for one case; reports the first difference."""
+def compare_case(ctx, st: Stats, case, m, r, exact=False):
+    """model output m (wire) vs implementation output r (JSON) for one case; reports the first difference.
+    exact=True: the model side was computed in binary64 - every float is compared for equality (no tolerance,
+    no zero-residue allowance)."""
+    EXACT[0] = bool(exact)
+    try:
+        return _compare_case(ctx, st, case, m, r, " [binary64 model, exact comparison]" if exact else "")
+    finally:
+        EXACT[0] = False
+
+
+def _compare_case(ctx, st: Stats, case, m, r, tag):
     cls = case[0]
     label = show_case(case)
 
     def bad(what, mo, io):
-        ctx.disagree(f"{cls}: {what}", replayable(case), mo, io)
+        ctx.disagree(f"{cls}{tag}: {what}", replayable(case), mo, io)
         return False
 
     if m == [2]:
